@@ -131,7 +131,7 @@ pub fn emit_def(u: &Universe, idx: usize, out: &mut String) {
     let d = &u.defs[idx];
     // capabilities decide the extra derives (params treated as fully capable)
     let unit_args: Vec<Ty> = (0..d.params).map(|_| Ty::Unit).collect();
-    let caps = u.caps(&Ty::Def(idx, unit_args));
+    let caps = u.def_own_caps(idx, unit_args);
     let mut derives = vec!["Savefile"];
     if caps.copy {
         derives.push("Clone");
@@ -141,7 +141,8 @@ pub fn emit_def(u: &Universe, idx: usize, out: &mut String) {
         derives.extend(["PartialEq", "Eq", "Hash", "PartialOrd", "Ord"]);
     }
     let is_enum = d.is_enum();
-    if caps.default && !is_enum {
+    let has_removed = d.fields_all().iter().any(|f| !f.is_live());
+    if caps.default && !is_enum && !has_removed {
         derives.push("Default");
     }
     writeln!(out, "    #[derive({})]", derives.join(", ")).unwrap();
@@ -158,6 +159,20 @@ pub fn emit_def(u: &Universe, idx: usize, out: &mut String) {
                 out.push(';');
             }
             out.push('\n');
+            if caps.default && has_removed {
+                // AbiRemoved has no Default impl: write the impl by hand
+                let parts: Vec<(String, String)> = fields
+                    .iter()
+                    .map(|f| (f.name.clone(), if f.is_live() { "Default::default()".to_string() } else { removed_ctor(f).to_string() }))
+                    .collect();
+                let body = match shape {
+                    Shape::Unit => d.name.clone(),
+                    Shape::Named => format!("{} {{ {} }}", d.name, parts.iter().map(|(n, e)| format!("{}: {}", n, e)).collect::<Vec<_>>().join(", ")),
+                    Shape::Tuple => format!("{}({})", d.name, parts.iter().map(|(_, e)| e.clone()).collect::<Vec<_>>().join(", ")),
+                };
+                let (gb, gu) = generics_decl(d, "Default");
+                writeln!(out, "    impl{} Default for {}{} {{ fn default() -> Self {{ {} }} }}", gb, d.name, gu, body).unwrap();
+            }
         }
         DefKind::Enum { variants } => {
             writeln!(out, "    pub enum {}{} {{", d.name, gdecl).unwrap();
